@@ -21,6 +21,18 @@ def declare(L):
         "akb_type_free": (None, [vp]), "akb_type": (vp, [vp]), "akb_form_type": (vp, [vp]),
         "akb_type_tostring": (vp, [vp]), "akb_type_equal": (i, [vp, vp, i]), "akb_typestr": (vp, [vp]),
     }
+    S.update({
+        "akb_builder_new": (vp, [i64, c_double]), "akb_builder_free": (None, [vp]), "akb_builder_raw": (vp, [vp]),
+        "akb_builder_length": (i64, [vp]), "akb_builder_clear": (i, [vp]), "akb_builder_null": (i, [vp]),
+        "akb_builder_boolean": (i, [vp, i]), "akb_builder_integer": (i, [vp, i64]), "akb_builder_real": (i, [vp, c_double]),
+        "akb_builder_complex": (i, [vp, c_double, c_double]), "akb_builder_datetime": (i, [vp, i64, cp]),
+        "akb_builder_timedelta": (i, [vp, i64, cp]), "akb_builder_string": (i, [vp, cp, i64]),
+        "akb_builder_bytestring": (i, [vp, cp, i64]), "akb_builder_beginlist": (i, [vp]), "akb_builder_endlist": (i, [vp]),
+        "akb_builder_begintuple": (i, [vp, i64]), "akb_builder_index": (i, [vp, i64]), "akb_builder_endtuple": (i, [vp]),
+        "akb_builder_beginrecord": (i, [vp, cp]), "akb_builder_field": (i, [vp, cp]), "akb_builder_endrecord": (i, [vp]),
+        "akb_builder_append": (i, [vp, vp, i64]), "akb_builder_extend": (i, [vp, vp]),
+        "akb_builder_snapshot": (vp, [vp]), "akb_builder_typestr": (vp, [vp]),
+    })
     for name, (res, args) in S.items():
         try:
             f = getattr(L, name)
@@ -121,3 +133,114 @@ class IoMixin(object):
 
     def typestr(self, h):
         return self._s(self.L.akb_typestr(h.p))
+
+
+class Builder(object):
+    """ArrayBuilder driven through the bridge; every command raises AkError when the library raises"""
+
+    def __init__(self, b, initial=1024, resize=1.5):
+        from vlib.bridge import Handle
+        self.b = b
+        p = b.L.akb_builder_new(initial, resize)
+        if not p:
+            b._raise()
+        self.h = Handle(b, p, b.L.akb_builder_free)
+
+    def _rc(self, rc):
+        if rc != 0:
+            self.b._raise()
+
+    def cmd(self, c):
+        """c = [name, args...] (JSON-able)"""
+        L, p, n = self.b.L, self.h.p, c[0]
+        if n == "null":
+            self._rc(L.akb_builder_null(p))
+        elif n == "boolean":
+            self._rc(L.akb_builder_boolean(p, int(c[1])))
+        elif n == "integer":
+            self._rc(L.akb_builder_integer(p, c[1]))
+        elif n == "real":
+            self._rc(L.akb_builder_real(p, c[1]))
+        elif n == "complex":
+            self._rc(L.akb_builder_complex(p, c[1], c[2]))
+        elif n == "datetime":
+            self._rc(L.akb_builder_datetime(p, c[1], c[2].encode()))
+        elif n == "timedelta":
+            self._rc(L.akb_builder_timedelta(p, c[1], c[2].encode()))
+        elif n == "string":
+            raw = c[1].encode("utf-8", "surrogateescape")
+            self._rc(L.akb_builder_string(p, raw, len(raw)))
+        elif n == "bytestring":
+            raw = bytes.fromhex(c[1])
+            self._rc(L.akb_builder_bytestring(p, raw, len(raw)))
+        elif n == "beginlist":
+            self._rc(L.akb_builder_beginlist(p))
+        elif n == "endlist":
+            self._rc(L.akb_builder_endlist(p))
+        elif n == "begintuple":
+            self._rc(L.akb_builder_begintuple(p, c[1]))
+        elif n == "index":
+            self._rc(L.akb_builder_index(p, c[1]))
+        elif n == "endtuple":
+            self._rc(L.akb_builder_endtuple(p))
+        elif n == "beginrecord":
+            self._rc(L.akb_builder_beginrecord(p, None if c[1] is None else c[1].encode()))
+        elif n == "field":
+            self._rc(L.akb_builder_field(p, c[1].encode("utf-8", "surrogateescape")))
+        elif n == "endrecord":
+            self._rc(L.akb_builder_endrecord(p))
+        elif n == "clear":
+            self._rc(L.akb_builder_clear(p))
+        else:
+            raise ValueError(n)
+
+    def append(self, content, at):
+        self._rc(self.b.L.akb_builder_append(self.h.p, content.p, at))
+
+    def extend(self, content):
+        self._rc(self.b.L.akb_builder_extend(self.h.p, content.p))
+
+    def snapshot(self):
+        return self.b._c(self.b.L.akb_builder_snapshot(self.h.p))
+
+    def length(self):
+        return self.b._n(self.b.L.akb_builder_length(self.h.p))
+
+    def typestr(self):
+        return self.b._s(self.b.L.akb_builder_typestr(self.h.p))
+
+    def fromiter(self, obj):
+        """walk a Python object exactly as builder_fromiter (src/python/content.cpp) does"""
+        if obj is None:
+            self.cmd(["null"])
+        elif isinstance(obj, bool):
+            self.cmd(["boolean", obj])
+        elif isinstance(obj, int):
+            self.cmd(["integer", obj])
+        elif isinstance(obj, float):
+            self.cmd(["real", obj])
+        elif isinstance(obj, complex):
+            self.cmd(["complex", obj.real, obj.imag])
+        elif isinstance(obj, bytes):
+            self.cmd(["bytestring", obj.hex()])
+        elif isinstance(obj, str):
+            self.cmd(["string", obj])
+        elif isinstance(obj, tuple):
+            self.cmd(["begintuple", len(obj)])
+            for i, x in enumerate(obj):
+                self.cmd(["index", i])
+                self.fromiter(x)
+            self.cmd(["endtuple"])
+        elif isinstance(obj, dict):
+            self.cmd(["beginrecord", None])
+            for k, x in obj.items():
+                self.cmd(["field", k])
+                self.fromiter(x)
+            self.cmd(["endrecord"])
+        elif isinstance(obj, list):
+            self.cmd(["beginlist"])
+            for x in obj:
+                self.fromiter(x)
+            self.cmd(["endlist"])
+        else:
+            raise TypeError(type(obj))
